@@ -38,6 +38,9 @@ Arguments Err {A} e.
 Definition usize_max : N := 18446744073709551615.
 (* isize::MAX: the largest size a Layout can describe; a bucket of more bytes cannot be allocated *)
 Definition isize_max : N := 9223372036854775807.
+(* an AtomicBucket is a 24-byte, 8-aligned header followed by the data: its Layout exists iff cap <= isize::MAX - 31
+   (trans/: gen_ab_layout_shape, ab_cap_max) *)
+Definition lf_cap_max : N := isize_max - 31.
 
 (* ---- raw byte buffers: a block's memory is a list of bytes, addressed by offset ---- *)
 
